@@ -22,6 +22,7 @@ type verifClient struct {
 	halt        *HaltLock
 	haltErr     error
 	released    []int64
+	releaseErr  error
 }
 
 func (c *verifClient) AcquireHaltLock(ctx context.Context, primaryURL string, nodeID uint64, name string, lockID int64) (*HaltLock, error) {
@@ -29,7 +30,7 @@ func (c *verifClient) AcquireHaltLock(ctx context.Context, primaryURL string, no
 }
 func (c *verifClient) ReleaseHaltLock(ctx context.Context, primaryURL string, nodeID uint64, name string, lockID int64) error {
 	c.released = append(c.released, lockID)
-	return nil
+	return c.releaseErr
 }
 func (c *verifClient) Commit(ctx context.Context, primaryURL string, nodeID uint64, name string, lockID int64, r io.Reader) error {
 	c.commits++
@@ -337,4 +338,61 @@ func VerifC13ExpiredHaltStream() {
 	rt.Check(verifAllUnlocked(db), "no lock is left behind")
 	_ = img0
 	rt.Reach("c13.expired.halt.stream")
+}
+
+// VerifC13ReleaseLost: the application gives the remote halt lock up; the
+// release may not reach the primary (request fails, or no primary is known).
+// Whatever happens to the request, the former holder is no longer writable.
+func VerifC13ReleaseLost() {
+	ctx := context.Background()
+	w, _ := verifC01Replica(1, rt.Choose("wal.mode", 2) == 1)
+	db := w.db
+	pos0 := db.Pos()
+	cl := &verifClient{}
+	w.store.Client = cl
+	fate := rt.Choose("release.fate", 4) // 0 delivered, 1 request fails, 2 no primary known, 3 this node has become primary meanwhile
+	if fate == 0 || fate == 1 {
+		w.store.primaryInfo = &PrimaryInfo{Hostname: "p", AdvertiseURL: "http://p"}
+	}
+	if fate == 3 {
+		w.store.mu.Lock()
+		w.store.setLease(&verifLease{})
+		w.store.mu.Unlock()
+	}
+	if fate == 1 {
+		cl.releaseErr = errors.New("connection reset")
+	}
+	db.remoteHaltLock.Store(&HaltLock{ID: 5, Pos: pos0})
+	rt.Check(db.Writeable(), "harness: holder of the remote halt lock may write")
+	err := db.ReleaseRemoteHaltLock(ctx, 5)
+	if fate == 3 {
+		// primary change while the halt was held: nothing to tell anybody, but the stale record must go,
+		// otherwise every later local commit would be forwarded to a primary that does not exist
+		rt.Check(err == nil && len(cl.released) == 0, "release on the new primary is local")
+		rt.Check(db.RemoteHaltLock() == nil, "the stale remote halt lock is dropped when its holder has become primary")
+		jf, jerr := db.CreateJournal()
+		rt.Check(jerr == nil, "the new primary can write again")
+		rt.Check(db.WriteJournalAt(ctx, jf, verifJournalHeader(0, 1, 1), 0, 1) == nil, "journal header")
+		dbf, _ := db.OpenDatabase(ctx)
+		p := rt.Bytes("local", verifP)
+		verifHeaderPage(p, 1, db.Mode() == DBModeWAL)
+		rt.Check(db.WriteDatabaseAt(ctx, dbf, p, 0, 1) == nil, "page write on the new primary")
+		rt.Check(db.RemoveJournal(ctx) == nil && cl.commits == 0, "the new primary commits locally, nothing is forwarded")
+		rt.Check(db.Pos().TXID == pos0.TXID+1, "local commit advances the position")
+		rt.Reach("c13.release.promoted")
+		return
+	}
+	if fate == 0 {
+		rt.Check(err == nil && len(cl.released) == 1 && cl.released[0] == 5, "release delivered to the primary under the lock's id")
+	} else {
+		rt.Check(err != nil, "an undelivered release is reported")
+	}
+	rt.Check(db.RemoteHaltLock() == nil && !db.Writeable(), "after the release the former holder can no longer write or publish, whether or not the primary heard of it")
+	dbf, _ := db.OpenDatabase(ctx)
+	p := rt.Bytes("late", verifP)
+	rt.Check(db.WriteDatabaseAt(ctx, dbf, p, 0, 1) == ErrReadOnlyReplica, "C07: a page write after the release is refused")
+	_, jerr := db.CreateJournal()
+	rt.Check(jerr == ErrReadOnlyReplica, "C07: journal creation after the release is refused")
+	rt.Check(db.Pos() == pos0, "position unchanged")
+	rt.Reach("c13.release")
 }
